@@ -258,6 +258,10 @@ void Session::init(const Config& cfg) {
   if (cfg.lib_sndbuf) nc->set_send_buffer_size(cfg.lib_sndbuf);
   if (cfg.lib_rcvbuf) nc->set_receive_buffer_size(cfg.lib_rcvbuf);
   nc->set_bind_inet_address_str("127.0.0.1");
+  // NetworkConfig setters schedule a delayed (200 ms) change notification whose subscriber
+  // (ThreadMain) restarts the listener; with the network "not initialized" that restart only
+  // CLOSES it. Let the notification fire now, before the listener exists.
+  advance_us(1000000);
 
   // listener: a pid-derived window first (many shards run in parallel), then anything
   uint16_t base = 20000 + (uint16_t)((getpid() * 37u) % 30000);
